@@ -5,6 +5,7 @@ C13: run index i -> cell (i mod N_cells) of the full solver x datafit x penalty 
 matrix is stratified enumeration; what is simulated is the supervised execution of each cell
 under several scheduler draws (default knobs; tiny budget; warm start with p0 = 1).
 """
+import os
 import numpy as np
 
 from . import binding as B
@@ -158,11 +159,13 @@ def plan_C13(seed, run, engine, tier="quick", entry=None):
     (W = number of shards is not known here; the stride only has to be a bijection modulo
     CELLS_PER_PAIR, which r // 1 is as well)."""
     if entry is not None:
-        # worker-local counter: the shard of worker k holds the runs r = k (mod 16)
-        c = run // 16
+        # worker-local counter: the shard of worker k holds the runs r = k (mod W), W = number
+        # of workers of the batch (exported by the driver; the replay file stores the plan itself)
+        W = max(1, int(os.environ.get("VERIF_SHARDS", "16")))
+        c = run // W
         local = c % CELLS_PER_PAIR
         step = c // CELLS_PER_PAIR
-        pos = int(entry) + 16 * step
+        pos = int(entry) + W * step
         pair = PAIR_ORDER[pos % len(SD_PAIRS)]
         # the budget / start variant rotates with the cell and with every full pass
         draw = (pos // len(SD_PAIRS) + local + seed) % 3
